@@ -1,6 +1,6 @@
 \* behaviour generation by TLC simulation over the full archetype alphabet
 CONSTANTS Pods = {"p1", "p2", "p3"}  Archetypes <- ArchAll  TGPs <- BoolBoth  TGP = 3
   MaxNow = 6  MaxFaults = 2  MaxRestarts = 1  MaxDlChanges = 2  MaxLen = 30  MaxSpont = 1
-  EarlierMode = "earlier"  GateTiers = TRUE  MinGrace = 1  DndMode = "honour"  ThresholdSlack = 0  DropMode = "keep"
+  EarlierMode = "earlier"  GateTiers = TRUE  MinGrace = 1  DndMode = "honour"  ThresholdSlack = 0  DropMode = "keep"  SplitMode = "waiting"
 SPECIFICATION Spec
 INVARIANTS GenPrint
